@@ -4,6 +4,8 @@ import json, os, subprocess
 
 HERE = os.path.dirname(os.path.dirname(os.path.abspath(__file__)))
 
+T = "Trusted: the reference models and parser in harness/ (self-tested on the RFCs' own examples at every start, parser cross-checked with encoding/json), the Go toolchain. Covers only the generated cases (bounds in the rule text of the evidence file and DESIGN.md section 6)."
+
 # property id -> (technique, level text, level note, design ref)
 CHECKS = {
  "C01": ("differential runtime monitor: real DecodePatch+Apply vs independent RFC 6902 reference evaluator on seeded state-directed operation sequences and an exhaustive single-operation family, under the pool sanitizer",
